@@ -5,9 +5,15 @@
 //   config = ss_<cmp>           etl::static_set<int, cap, Cmp>
 //            fsv_<cmp>          etl::flat_set<int, etl::static_vector<int, cap>, Cmp>
 //            fip_<cmp>          etl::flat_set<int, ipv_vector<int, cap>, Cmp>   (adaptor over etl::inplace_vector)
+//            sst_<cmp>, fst_<cmp>  static_set / flat_set over static_vector with the TRACKED key type TK: a
+//                               non-trivial element (user-provided copy/move/destructor) that counts live
+//                               objects and flags every use of a moved-from or destroyed value; after every
+//                               call live objects == size(s) + size(t), at the end of the history none is left
 //            fms_<cmp>          etl::flat_multiset<int, etl::static_vector<int, 8>, Cmp>: "<config> <n> k1..kn"
 //   cmp    = less | greater | tless (etl::less<>, heterogeneous lookups) | half (a/2 < b/2: equivalence != equality)
 //   step   = i k | e k | ih h k | ir n k.. | as n k.. | asu n k.. | ek k | ep p | er a b | ef t m | cl | sw | x | rp n k..
+//            asi n k..  construction from a forward-iterator range (no distance precondition) / flat_set(first, last)
+//            asui n k.. flat_set(sorted_unique, first, last)        cp  copy assignment s = t (or copy-construct + move-assign)
 // Per step the leg prints "<code> <result> [ n e1..en ]"; a fired TETL_PRECONDITION prints
 // "<code> contract [ contents ]" and ends the history.  After the history: size/empty/full/max_size,
 // every lookup for every key 0..5 (and the heterogeneous ones for tless), the six relations against
@@ -29,23 +35,102 @@ using namespace vh;
 
 namespace {
 
+// ---- the tracked key type ---------------------------------------------------------------
+// state: 1 = alive, 2 = moved-from, 0 = destroyed.  `bad` counts every read of a value that is not alive,
+// every assignment to / destruction of a destroyed object.  A moved-from object gets the value -777 so
+// that a stale read also shows in the printed contents.
+struct TK {
+    static inline long live = 0;
+    static inline long bad  = 0;
+    int v;
+    int state;
+    TK(int x) noexcept : v(x), state(1) { ++live; } // NOLINT implicit: keys are written as ints in the cases
+    TK(TK const& o) noexcept : v(o.v), state(1)
+    {
+        if (o.state != 1) { ++bad; }
+        ++live;
+    }
+    TK(TK&& o) noexcept : v(o.v), state(1)
+    {
+        if (o.state != 1) { ++bad; }
+        o.state = 2;
+        o.v     = -777;
+        ++live;
+    }
+    auto operator=(TK const& o) noexcept -> TK&
+    {
+        if (o.state != 1 || state == 0) { ++bad; }
+        v     = o.v;
+        state = 1;
+        return *this;
+    }
+    auto operator=(TK&& o) noexcept -> TK&
+    {
+        if (o.state != 1 || state == 0) { ++bad; }
+        if (this != &o) {
+            v       = o.v;
+            state   = 1;
+            o.state = 2;
+            o.v     = -777;
+        }
+        return *this;
+    }
+    ~TK()
+    {
+        if (state == 0) { ++bad; }
+        state = 0;
+        --live;
+    }
+    [[nodiscard]] auto get() const noexcept -> int
+    {
+        if (state != 1) { ++bad; }
+        return v;
+    }
+    friend auto operator<(TK const& a, TK const& b) noexcept -> bool { return a.get() < b.get(); }
+    friend auto operator>(TK const& a, TK const& b) noexcept -> bool { return a.get() > b.get(); }
+    friend auto operator==(TK const& a, TK const& b) noexcept -> bool { return a.get() == b.get(); }
+    friend auto operator!=(TK const& a, TK const& b) noexcept -> bool { return a.get() != b.get(); }
+};
+
+inline auto as_int(int x) -> int { return x; }
+inline auto as_int(TK const& x) -> int { return x.get(); }
+template <typename T>
+concept KeyLike = std::is_same_v<T, int> || std::is_same_v<T, TK>;
+
 // ---- comparators ------------------------------------------------------------------------
 struct half_less {
-    constexpr auto operator()(int a, int b) const -> bool { return a / 2 < b / 2; }
+    template <KeyLike X, KeyLike Y>
+    auto operator()(X const& a, Y const& b) const -> bool { return as_int(a) / 2 < as_int(b) / 2; }
 };
 
 // heterogeneous keys for the transparent comparator: a point and a band [lo, hi]
 struct HK {
     int v;
 };
-constexpr auto operator<(HK a, int b) -> bool { return a.v < b; }
-constexpr auto operator<(int a, HK b) -> bool { return a < b.v; }
+template <KeyLike T> auto operator<(HK a, T const& b) -> bool { return a.v < as_int(b); }
+template <KeyLike T> auto operator<(T const& a, HK b) -> bool { return as_int(a) < b.v; }
 struct HB {
     int lo;
     int hi;
 };
-constexpr auto operator<(HB a, int b) -> bool { return a.hi < b; }
-constexpr auto operator<(int a, HB b) -> bool { return a < b.lo; }
+template <KeyLike T> auto operator<(HB a, T const& b) -> bool { return a.hi < as_int(b); }
+template <KeyLike T> auto operator<(T const& a, HB b) -> bool { return as_int(a) < b.lo; }
+
+// a forward (not random-access) iterator over an int array: the iterator-range constructors and
+// insert(first, last) take their `if constexpr (RandomAccessIterator)` = false branch with it
+struct fwd_it {
+    using iterator_category = etl::forward_iterator_tag;
+    using value_type        = int;
+    using difference_type   = std::ptrdiff_t;
+    using pointer           = int const*;
+    using reference         = int const&;
+    int const* p;
+    auto operator*() const -> reference { return *p; }
+    auto operator++() -> fwd_it& { ++p; return *this; }
+    auto operator++(int) -> fwd_it { auto c = *this; ++p; return c; }
+    friend auto operator==(fwd_it a, fwd_it b) -> bool { return a.p == b.p; }
+    friend auto operator!=(fwd_it a, fwd_it b) -> bool { return a.p != b.p; }
+};
 
 // ---- a minimal vector-like adaptor over etl::inplace_vector (it has no insert/erase of its own) ----
 template <typename T, std::size_t N>
@@ -154,11 +239,20 @@ __attribute__((noinline)) bool fires(F& f)
 }
 
 // ---- printing ---------------------------------------------------------------------------
+template <typename It>
+void plist(Out& o, It f, It l)
+{
+    std::size_t n = 0;
+    for (auto i = f; i != l; ++i) { ++n; }
+    o.num(static_cast<i64>(n));
+    for (auto i = f; i != l; ++i) { o.num(static_cast<i64>(as_int(*i))); }
+}
+
 template <typename C>
 void contents(Out& o, C const& c)
 {
     o.tok("[");
-    o.list(c.begin(), c.end());
+    plist(o, c.begin(), c.end());
     o.tok("]");
 }
 
@@ -215,6 +309,25 @@ void observers(Out& o, S& s, S& t, std::size_t cap)
     if constexpr (Impl) {
         if constexpr (K == Kind::static_set) { o.b(cs.full()); } else { o.b(cs.size() == cs.max_size()); }
         o.num(static_cast<i64>(cs.max_size()));
+        // the other ways to walk the set must show the same sequence; key_comp/value_comp the same order
+        std::vector<int> fw, w1, w2, w3, w4;
+        for (auto it = cs.begin(); it != cs.end(); ++it) { fw.push_back(as_int(*it)); }
+        for (auto it = s.begin(); it != s.end(); ++it) { w1.push_back(as_int(*it)); }
+        for (auto it = cs.cbegin(); it != cs.cend(); ++it) { w2.push_back(as_int(*it)); }
+        for (auto it = cs.rbegin(); it != cs.rend(); ++it) { w3.insert(w3.begin(), as_int(*it)); }
+        for (auto it = s.rbegin(); it != s.rend(); ++it) { w4.insert(w4.begin(), as_int(*it)); }
+        std::vector<int> w5;
+        for (auto it = cs.crbegin(); it != cs.crend(); ++it) { w5.insert(w5.begin(), as_int(*it)); }
+        if (w1 != fw || w2 != fw || w3 != fw || w4 != fw || w5 != fw) { o.tok("iteration-differs"); }
+        auto kc = cs.key_comp();
+        auto vc = cs.value_comp();
+        typename S::key_compare fresh{};
+        for (int a = 0; a <= 5; ++a) {
+            for (int b = 0; b <= 5; ++b) {
+                using V = typename S::value_type;
+                if (kc(V(a), V(b)) != fresh(V(a), V(b)) || vc(V(a), V(b)) != fresh(V(a), V(b))) { o.tok("key-comp-differs"); }
+            }
+        }
     } else {
         o.b(cs.size() == cap).num(static_cast<i64>(cap)); // std::set: the bound of the property
     }
@@ -241,6 +354,10 @@ void observers(Out& o, S& s, S& t, std::size_t cap)
 template <Kind K, typename S, typename Container, bool Transparent>
 void run_impl(Toks in, Out& out, std::size_t cap)
 {
+    constexpr bool tracked = std::is_same_v<typename S::value_type, TK>;
+    TK::live = 0;
+    TK::bad  = 0;
+    {
     S s{};
     S t{};
     bool stopped = false;
@@ -255,13 +372,15 @@ void run_impl(Toks in, Out& out, std::size_t cap)
         if (code == "ih") { a = static_cast<int>(in.num()); k = static_cast<int>(in.num()); }
         if (code == "ep") { a = static_cast<int>(in.num()); }
         if (code == "er" || code == "ef") { a = static_cast<int>(in.num()); b = static_cast<int>(in.num()); }
-        if (code == "ir" || code == "as" || code == "asu" || code == "rp") {
+        if (code == "ir" || code == "as" || code == "asu" || code == "rp" || code == "asi" || code == "asui") {
             for (auto x : in.list()) { ks.push_back(static_cast<int>(x)); }
         }
+        bool const odd = (in.i & 1U) != 0U; // alternates between equivalent routes through the interface
         step.tok(code);
         auto call = [&]() {
             if (code == "i") {
-                auto r = s.insert(k);
+                typename S::value_type kv(k);
+                auto r = odd ? s.insert(kv) : s.insert(typename S::value_type(k)); // const& and && overloads
                 if (r.first == nullptr) { step.tok("null"); } else { step.num(off(s, r.first)); }
                 step.b(r.second);
             } else if (code == "e") {
@@ -269,9 +388,26 @@ void run_impl(Toks in, Out& out, std::size_t cap)
                 if (r.first == nullptr) { step.tok("null"); } else { step.num(off(s, r.first)); }
                 step.b(r.second);
             } else if (code == "ir") {
-                s.insert(ks.data(), ks.data() + ks.size());
+                if (odd) {
+                    s.insert(ks.data(), ks.data() + ks.size());
+                } else {
+                    s.insert(fwd_it{ks.data()}, fwd_it{ks.data() + ks.size()});
+                }
+            } else if (code == "asi") {
+                if (K == Kind::static_set || odd) {
+                    s = S(fwd_it{ks.data()}, fwd_it{ks.data() + ks.size()});
+                } else {
+                    if constexpr (K == Kind::flat_set) { s = S(ks.data(), ks.data() + ks.size()); }
+                }
+            } else if (code == "cp") {
+                if (odd) {
+                    s = t;
+                } else {
+                    S u(t);
+                    s = etl::move(u);
+                }
             } else if (code == "ek") {
-                step.num(static_cast<i64>(s.erase(k)));
+                step.num(static_cast<i64>(s.erase(typename S::value_type(k))));
             } else if (code == "ep") {
                 step.num(off(s, s.erase(s.begin() + a)));
             } else if (code == "er") {
@@ -279,7 +415,7 @@ void run_impl(Toks in, Out& out, std::size_t cap)
             } else if (code == "cl") {
                 s.clear();
             } else if (code == "sw") {
-                if ((in.i & 1U) != 0U) { s.swap(t); } else { swap(s, t); } // member and free function
+                if (odd) { s.swap(t); } else { swap(s, t); } // member and free function
             } else if (code == "as") {
                 if constexpr (K == Kind::static_set) {
                     s = S(ks.data(), ks.data() + ks.size());
@@ -290,17 +426,21 @@ void run_impl(Toks in, Out& out, std::size_t cap)
                 if constexpr (K == Kind::flat_set) {
                     if (code == "ih") {
                         auto h = std::min(static_cast<std::size_t>(a), static_cast<std::size_t>(s.size())); // a valid hint
-                        step.num(off(s, s.insert(s.cbegin() + h, k)));
+                        typename S::value_type kv(k);
+                        step.num(off(s, odd ? s.insert(s.cbegin() + h, kv) : s.insert(s.cbegin() + h, typename S::value_type(k))));
                     } else if (code == "asu") {
                         s = S(etl::sorted_unique, Container(ks.data(), ks.data() + ks.size()));
+                    } else if (code == "asui") {
+                        s = S(etl::sorted_unique, ks.data(), ks.data() + ks.size());
                     } else if (code == "rp") {
                         s.replace(Container(ks.data(), ks.data() + ks.size()));
                     } else if (code == "x") {
                         auto c = etl::move(s).extract();
-                        step.list(c.begin(), c.end());
+                        plist(step, c.begin(), c.end());
                     } else if (code == "ef") {
-                        auto n = (a == 0) ? etl::erase_if(s, [b](int x) { return x % 2 == b; })
-                                          : etl::erase_if(s, [b](int x) { return x < b; });
+                        using V = typename S::value_type;
+                        auto n  = (a == 0) ? etl::erase_if(s, [b](V const& x) { return as_int(x) % 2 == b; })
+                                           : etl::erase_if(s, [b](V const& x) { return as_int(x) < b; });
                         step.num(static_cast<i64>(n));
                     } else {
                         step.tok("unknown-step");
@@ -316,10 +456,22 @@ void run_impl(Toks in, Out& out, std::size_t cap)
             fired = true;
         }
         contents(step, s);
+        if constexpr (tracked) {
+            // a longjmp out of a fired precondition skips destructors of temporaries: no accounting afterwards
+            if (!fired && TK::live != static_cast<long>(s.size() + t.size())) { step.tok("live-objects-differ"); }
+        }
         out.tok(step.s);
         if (fired) { stopped = true; }
     }
     observers<K, S, Transparent, true>(out, s, t, cap);
+    if constexpr (tracked) {
+        if (stopped) { TK::live = static_cast<long>(s.size() + t.size()); }
+    }
+    }
+    if constexpr (tracked) {
+        if (TK::live != 0) { out.tok("leaked-objects"); }
+        if (TK::bad != 0) { out.tok("used-dead-or-moved-from-value"); }
+    }
 }
 
 // ---- the same history on std::set, bounded by cap -----------------------------------------
@@ -370,7 +522,21 @@ void run_ref(Toks in, Out& out, std::size_t cap)
             auto ks = in.list();
             if (ks.size() > cap) { na = true; break; }
             s = R(ks.begin(), ks.end());
-        } else if (code == "asu" || code == "rp") {
+        } else if (code == "asi") {
+            auto ks = in.list();
+            R tmp{};
+            for (auto k : ks) {
+                if (tmp.find(static_cast<int>(k)) == tmp.end() && tmp.size() == cap) {
+                    if constexpr (K == Kind::flat_set) { na = true; break; } // capacity exceeded: outside the property
+                    continue;                                                // static_set: the key is refused
+                }
+                tmp.insert(static_cast<int>(k));
+            }
+            if (na) { break; }
+            s = tmp;
+        } else if (code == "cp") {
+            s = t;
+        } else if (code == "asu" || code == "rp" || code == "asui") {
             auto ks = in.list();
             std::vector<int> v(ks.begin(), ks.end());
             if (K != Kind::flat_set || v.size() > cap || !sorted_unique_under(v, Cmp{})) { na = true; break; }
@@ -421,7 +587,7 @@ void run_ref(Toks in, Out& out, std::size_t cap)
     observers<K, R, Transparent, false>(out, s, t, cap);
 }
 
-template <typename EtlCmp, typename StdCmp, bool Transparent, std::size_t Cap>
+template <typename EtlCmp, typename TkCmp, typename StdCmp, bool Transparent, std::size_t Cap>
 bool dispatch_cap(std::string const& fam, Toks& in, Out& impl, Out& ref)
 {
     using R = std::set<int, StdCmp>;
@@ -445,18 +611,33 @@ bool dispatch_cap(std::string const& fam, Toks& in, Out& impl, Out& ref)
         run_ref<Kind::flat_set, R, StdCmp, Transparent>(in, ref, Cap);
         return true;
     }
+    if (fam == "sst") {
+        using S = etl::static_set<TK, Cap, TkCmp>;
+        run_impl<Kind::static_set, S, void, Transparent>(in, impl, Cap);
+        run_ref<Kind::static_set, R, StdCmp, Transparent>(in, ref, Cap);
+        return true;
+    }
+    if (fam == "fst") {
+        using C = etl::static_vector<TK, Cap>;
+        using S = etl::flat_set<TK, C, TkCmp>;
+        run_impl<Kind::flat_set, S, C, Transparent>(in, impl, Cap);
+        run_ref<Kind::flat_set, R, StdCmp, Transparent>(in, ref, Cap);
+        return true;
+    }
     return false;
 }
 
-template <typename EtlCmp, typename StdCmp, bool Transparent>
+template <typename EtlCmp, typename TkCmp, typename StdCmp, bool Transparent>
 bool dispatch(std::string const& fam, Toks& in, Out& impl, Out& ref)
 {
     auto cap = in.num();
     switch (cap) {
-    case 1: return dispatch_cap<EtlCmp, StdCmp, Transparent, 1>(fam, in, impl, ref);
-    case 3: return dispatch_cap<EtlCmp, StdCmp, Transparent, 3>(fam, in, impl, ref);
-    case 4: return dispatch_cap<EtlCmp, StdCmp, Transparent, 4>(fam, in, impl, ref);
-    case 8: return dispatch_cap<EtlCmp, StdCmp, Transparent, 8>(fam, in, impl, ref);
+    case 1: return dispatch_cap<EtlCmp, TkCmp, StdCmp, Transparent, 1>(fam, in, impl, ref);
+    case 3: return dispatch_cap<EtlCmp, TkCmp, StdCmp, Transparent, 3>(fam, in, impl, ref);
+    case 4: return dispatch_cap<EtlCmp, TkCmp, StdCmp, Transparent, 4>(fam, in, impl, ref);
+    case 8: return dispatch_cap<EtlCmp, TkCmp, StdCmp, Transparent, 8>(fam, in, impl, ref);
+    case 2: return dispatch_cap<EtlCmp, TkCmp, StdCmp, Transparent, 2>(fam, in, impl, ref);
+    case 5: return dispatch_cap<EtlCmp, TkCmp, StdCmp, Transparent, 5>(fam, in, impl, ref);
     default: return false;
     }
 }
@@ -496,10 +677,10 @@ bool vh::run_case(std::string const& op, Toks& in, Out& impl, Out& ref)
         if (cmp == "half") { multiset_case<half_less, half_less>(in, impl, ref); return true; }
         return false;
     }
-    if (cmp == "less") { return dispatch<etl::less<int>, std::less<int>, false>(fam, in, impl, ref); }
-    if (cmp == "greater") { return dispatch<etl::greater<int>, std::greater<int>, false>(fam, in, impl, ref); }
-    if (cmp == "tless") { return dispatch<etl::less<>, std::less<>, true>(fam, in, impl, ref); }
-    if (cmp == "half") { return dispatch<half_less, half_less, false>(fam, in, impl, ref); }
+    if (cmp == "less") { return dispatch<etl::less<int>, etl::less<TK>, std::less<int>, false>(fam, in, impl, ref); }
+    if (cmp == "greater") { return dispatch<etl::greater<int>, etl::greater<TK>, std::greater<int>, false>(fam, in, impl, ref); }
+    if (cmp == "tless") { return dispatch<etl::less<>, etl::less<>, std::less<>, true>(fam, in, impl, ref); }
+    if (cmp == "half") { return dispatch<half_less, half_less, half_less, false>(fam, in, impl, ref); }
     return false;
 }
 
